@@ -708,6 +708,21 @@ func genC07(r *RNG, tier string, run int) *Trace {
 	if run%2003 == 7 {
 		return genC07Default(r)
 	}
+	if run%53 == 9 {
+		// long match stratum through the pipe: single matches of 64 KiB and
+		// more, offsets beyond 64 KiB, into a Decoder with the same window
+		t := genLongMatch(r, []string{"HP", "BHP", "DHP", "BDHP", "BUP", "GSAP"})
+		if t.P.WindowSize == 0 {
+			t.P.WindowSize = t.P.BufferSize
+		}
+		ws := t.P.WindowSize
+		t.World = "pipe"
+		t.D = &DecoderSpec{Target: "decoder", WindowSize: ws, BufferSize: r.Pick(0, 0, 2*ws, ws+1+r.Intn(ws), 2*ws+r.Intn(ws))}
+		t.P.Target = "wrap"
+		t.P.Plan = genRPlan(r, len(t.Input), planOpts{chunk: r.Chance(0.5)})
+		t.Ops = []Op{{K: "Parse"}}
+		return t
+	}
 	if run%4 == 3 {
 		// synthetic well-formed streams straight into a Decoder
 		g := dgen{target: "decoder", nOps: 25, sizes: "fit", readBias: 3, resetW: 1}
